@@ -128,6 +128,16 @@ def r3(ctx, prog):
     deleg = [st for st in f.calls() if st.get('fn') == 'run' and 'obj' in st and f.path(st['obj']).endswith('sub_sm')]
     lookup = [st for st in f.calls() if st.get('fn') == 'find' and 'obj' in st and f.path(st['obj']).endswith('events')]
     scan = [st for st in f.calls() if st.get('callee', '').startswith('std::find_if')]
+    scan_loop = None
+    if not scan:
+        # the same scan written as an explicit loop over routes whose body calls the guard
+        for lp in f.stmts:
+            if lp and lp['k'] in ('ForStmt', 'CXXForRangeStmt', 'WhileStmt') and lp.get('body') is not None and \
+                    any('guard' in f.path(iv['obj']) and iv['i'] in set(f.walk(lp['body'])) for iv in q.invokes(f)) and \
+                    any(x.endswith('routes') or '.routes' in x for x in q.subtree_paths(f, lp['i'])):
+                scan_loop = lp
+        if scan_loop is not None:
+            scan = [scan_loop]
     if not deleg or not lookup or not scan:
         raise AnalysisBroken('run(): delegation / handler lookup / route scan not found (%d/%d/%d)' % (len(deleg), len(lookup), len(scan)))
     first_deleg = sorted(deleg, key=lambda s: s['l'])[0]
@@ -149,25 +159,54 @@ def r3(ctx, prog):
     okg = any(f.s(f.strip_casts(c)).get('op') == '==' and k == 0 for c, k in g)
     ctx.ob('C16.R3', '%s|handler-before-routes' % f.name, okg and f.cfg.exists_path(q.pt(f, lookup[0]), q.pt(f, scan[0])) and not f.cfg.exists_path(q.pt(f, scan[0]), q.pt(f, lookup[0])),
            'the route scan runs only when the handler produced no target state', where=f.loc(scan[0]['i']))
-    a = [f.path(x) for x in scan[0]['args'][:2]]
-    ctx.ob('C16.R3', '%s|forward-scan' % f.name, a == ['curr_state_.routes.begin()', 'curr_state_.routes.end()'], 'std::find_if over routes.begin()..end() (%s)' % a, where=f.loc(scan[0]['i']))
     muts = []
     for g_ in impl_funcs(prog):
         for st in g_.calls():
             if 'obj' in st and (g_.field_of(st['obj']) or '').endswith('State::routes') and st.get('fn') not in ('begin', 'end', 'size', 'empty', 'cbegin', 'cend'):
                 muts.append(st.get('fn'))
     ctx.ob('C16.R3', I + '|routes-append-only', bool(muts) and set(muts) <= {'emplace_back', 'push_back'}, 'routes vector is only appended to (%s)' % sorted(set(muts)))
-    lam = None
-    for x in f.walk(scan[0]['args'][2]):
-        if f.stmts[x]['k'] == 'LambdaExpr':
-            lam = prog.lambda_func(f, f.stmts[x])
-    if lam is None:
-        raise AnalysisBroken('run(): route predicate lambda not found')
+    if scan_loop is None:
+        a = [f.path(x) for x in scan[0]['args'][:2]]
+        ctx.ob('C16.R3', '%s|forward-scan' % f.name, a == ['curr_state_.routes.begin()', 'curr_state_.routes.end()'], 'std::find_if over routes.begin()..end() (%s)' % a, where=f.loc(scan[0]['i']))
+        lam = None
+        for x in f.walk(scan[0]['args'][2]):
+            if f.stmts[x]['k'] == 'LambdaExpr':
+                lam = prog.lambda_func(f, f.stmts[x])
+        if lam is None:
+            raise AnalysisBroken('run(): route predicate lambda not found')
+        body_fn, start = lam, lam.cfg.entry_point()
+    else:
+        lp = scan_loop
+        if lp['k'] == 'CXXForRangeStmt':
+            fwd = f.path(lp['range']).endswith('routes')
+        else:
+            paths = ' '.join(q.subtree_paths(f, lp['i']))
+            incs = [st for st in f.stmts if st and st['i'] in set(f.walk(lp['i'])) and st['k'] in ('UnaryOperator', 'CXXOperatorCallExpr') and st.get('op') == '++']
+            decs = [st for st in f.stmts if st and st['i'] in set(f.walk(lp['i'])) and st['k'] in ('UnaryOperator', 'CXXOperatorCallExpr') and st.get('op') == '--']
+            from tbxlint import rd as _rd
+            starts_at_begin = 'routes.begin()' in paths
+            for x in f.walk(lp['cond']) if lp.get('cond') is not None else ():
+                sx = f.stmts[x]
+                if sx['k'] == 'DeclRefExpr' and sx.get('dk') == 'Var':
+                    for dfn in _rd.local_defs(f, sx['d']):
+                        if dfn['kind'] == 'init' and dfn['rhs'] is not None and any(p_.endswith('routes.begin()') for p_ in q.subtree_paths(f, dfn['rhs'])):
+                            starts_at_begin = True
+            fwd = starts_at_begin and 'routes.end()' in paths and bool(incs) and not decs
+        # first match: some break/return inside the loop is controlled by both the event test and the guard call
+        leaves = [st for st in f.stmts if st and st['i'] in set(f.walk(lp['body'])) and st['k'] in ('BreakStmt', 'ReturnStmt')]
+        ctx.ob('C16.R3', '%s|forward-scan' % f.name, fwd and bool(leaves), 'explicit forward loop over routes that leaves at the first match', where=f.loc(lp['i']))
+        body_fn, start = f, f.cfg.point_of(f.s(lp['body'])['ch'][0]) if f.s(lp['body']).get('ch') else q.pt(f, lp)
+    lam = body_fn
     gi = [iv for iv in q.invokes(lam) if 'guard' in lam.path(iv['obj'])]
     tests = [st for st in lam.stmts if st and st['k'] == 'BinaryOperator' and st.get('op') in ('!=', '==') and 'item.event_id' in q.subtree_paths(lam, st['i'])]
     cmp_event = any('event.id' in q.subtree_paths(lam, t['i']) for t in tests)
-    ok = bool(gi) and cmp_event and all(not lam.cfg.exists_path(lam.cfg.entry_point(), q.pt(lam, i), avoid=q.pts(lam, tests)) for i in gi)
-    ctx.ob('C16.R3', '%s|event-before-guard' % f.name, ok, 'the event id test dominates the guard call (guards of non-matching routes are not evaluated)', where=lam.loc(lam.body))
+    if scan_loop is None:
+        ok = bool(gi) and cmp_event and all(not lam.cfg.exists_path(lam.cfg.entry_point(), q.pt(lam, i), avoid=q.pts(lam, tests)) for i in gi)
+    else:
+        # per iteration: from the loop's condition no path reaches the guard call without passing the event test
+        cp = lam.cfg.point_of(scan_loop['cond']) if scan_loop.get('cond') is not None else q.pt(lam, scan_loop)
+        ok = bool(gi) and cmp_event and cp is not None and all(not lam.cfg.exists_path(cp, q.pt(lam, i), avoid=q.pts(lam, tests)) for i in gi)
+    ctx.ob('C16.R3', '%s|event-before-guard' % f.name, ok, 'the event id test dominates the guard call (guards of non-matching routes are not evaluated)', where=lam.loc(lam.body) if scan_loop is None else f.loc(scan_loop['i']))
 
 
 def r4(ctx, prog):
